@@ -950,15 +950,18 @@ def check_C18(tier, seed, replay):
             continue
         keep.append((fmt, hl))
     hists = keep if not replay else hists
-    modes = ["file", "dest", "dir"]
+    # "+wide": the same histories with the prefixes spelled in multi-byte characters
+    modes = ["file", "dest", "dir", "file+wide"]
     d = vlib.famdir("buildscript", tier)
     cf = os.path.join(d, "histories.tsv")
     lines = []
     for fmt, hl in hists:
         for m in (modes if not replay else [json.load(open(replay)).get("mode", "file")]):
+            if m == "file+wide" and "p:" not in hl:
+                continue
             if m == "dir" and ("e:missing" in hl or "i:missing" in hl):
                 continue      # in directory mode a missing grammar file is simply not visited
-            if fmt and m != "file":
+            if fmt and not m.startswith("file"):
                 continue      # formatting is orthogonal to where the destination is
             lines.append((m, fmt, hl))
     binp = tools_bin("buildscript")
@@ -1209,6 +1212,8 @@ def check_C15(tier, seed, replay):
         if os.path.exists(dest):
             os.remove(dest)
         out["compile"] = run_door([front, "compile", pth, dv, dest])
+        # the same request again, with whatever the first run left at the destination
+        out["compile_again"] = run_door([front, "compile", pth, dv, dest])
         if os.path.exists(dest):
             os.remove(dest)
         out["compile_exit"] = run_door([front, "compile_exit", pth, dv, dest])
@@ -1247,11 +1252,15 @@ def check_C15(tier, seed, replay):
         open(os.path.join(dname, nm + ".ebnf"), "w").write(good)
     dir_cases.append(("dir_all_valid", dname, "code"))
     if replay:
-        dir_cases = [c for c in dir_cases if c[0] == json.load(open(replay)).get("name")]
+        dir_cases = [c for c in dir_cases if c[0] == (json.load(open(replay)).get("name") or "").replace("_again", "")]
     with ThreadPoolExecutor(max_workers=vlib.NCPU) as ex:
         outs = list(ex.map(run_case, cases))
         routs = list(ex.map(run_robust, robust))
         douts = list(ex.map(lambda c: run_door([front, "compiledir", c[1]]), dir_cases))
+        # and once more over whatever the first run left next to the grammars
+        douts2 = list(ex.map(lambda c: run_door([front, "compiledir", c[1]]), dir_cases))
+    dir_cases = dir_cases + [(n + "_again", dn, e) for n, dn, e in dir_cases]
+    douts = douts + douts2
     for (name, dname, expect), r in zip(dir_cases, douts):
         fail = door_failure(r)
         if fail:
@@ -1266,7 +1275,7 @@ def check_C15(tier, seed, replay):
     for (gid, name, text, derives, expect, answer_only), o in zip(cases, outs):
         if expect == "error":
             nontriv += 1
-        for door in ("lib", "compile", "compile_exit", "cli"):
+        for door in ("lib", "compile", "compile_again", "compile_exit", "cli"):
             if door == "cli" and derives == []:
                 continue        # the command line cannot express the empty derive set
             r = o[door]
@@ -1278,7 +1287,7 @@ def check_C15(tier, seed, replay):
                 continue
             if door == "lib":
                 got = "code" if r["out"].startswith("code") else "error" if r["out"].startswith("error") else "?"
-            elif door == "compile":
+            elif door in ("compile", "compile_again"):
                 got = "code" if r["out"].startswith("ok") else "error" if r["out"].startswith("err") else "?"
             elif door == "compile_exit":
                 got = "code" if (r["code"] == 0 and r["out"].startswith("ok")) else "error" if r["code"] != 0 else "?"
@@ -1306,8 +1315,8 @@ def check_C15(tier, seed, replay):
                                   {"name": name, "door": door, "grammar": text[:2000], "observed": o[door],
                                    "site": "%s:%s" % (door, kind if kind != "mutated" else name)}))
     res.coverage = {
-        "states": t["distinct"], "transitions": max(t["states"], 1), "traces_validated_against_impl": len(cases) * 4 + len(robust) * 2 + len(dir_cases),
-        "evaluations": len(cases) * 4 + len(robust) * 2 + len(dir_cases), "distinct_nontrivial": nontriv,
+        "states": t["distinct"], "transitions": max(t["states"], 1), "traces_validated_against_impl": len(cases) * 5 + len(robust) * 2 + len(dir_cases),
+        "evaluations": len(cases) * 5 + len(robust) * 2 + len(dir_cases), "distinct_nontrivial": nontriv,
         "rule": "per documented restriction: violating grammars in varied contexts and nearest valid neighbours, include "
                 "graphs on three rules, identifier spellings, derive sets (verdict by CompileFront.tla) through the "
                 "library, Compile::run, Compile::run_exit_on_error (exit status) and peginator-cli, each case in its own process; plus seeded mutations / truncations "
